@@ -226,9 +226,9 @@ package secec
 //@   props C09 C08
 //@   requires !isnil(rand)
 //@   split case result1 == nil
-//@   loop 0 invariant 0 <= i && i <= 8 && iff(sampok(old(rdstate(rand)), 8), sampok(rdstate(rand), 8 - i)) && sampv(old(rdstate(rand)), 8) == sampv(rdstate(rand), 8 - i) && samps(old(rdstate(rand)), 8) == samps(rdstate(rand), 8 - i)
+//@   loop 0 invariant loopiter <= 8 && iff(sampok(old(rdstate(rand)), 8), sampok(rdstate(rand), 8 - loopiter)) && sampv(old(rdstate(rand)), 8) == sampv(rdstate(rand), 8 - loopiter) && samps(old(rdstate(rand)), 8) == samps(rdstate(rand), 8 - loopiter)
 //@   loop 0 modifies tmp, s.m, rdstate(rand)
-//@   using samp_def(rdstate(rand), 8 - i)
+//@   using samp_def(rdstate(rand), 8 - loopiter)
 //@   using samp_zero(rdstate(rand))
 //@   ensures result1 == nil ==> sampok(old(rdstate(rand)), 8) && lift(val(result0)) == sampv(old(rdstate(rand)), 8) && sampv(old(rdstate(rand)), 8) >= 1 && sampv(old(rdstate(rand)), 8) < N && rdstate(rand) == samps(old(rdstate(rand)), 8)
 //@   ensures result1 == nil ==> val(result0) != 0
